@@ -56,6 +56,12 @@ CORPUS: Dict[str, str] = {
     "lists": IMPORTS + "items = [1, 2, 3]\nitems.append(4)\nn = len(items)\nsq = [i * i for i in range(4)]\nwhile True:\n    items.append(n)\n    mon.write(items[-1])\n    mon.write(len(sq))\n",
     "devices": IMPORTS + "led = Led(13)\nrgb = RGBLed(9, 10, 11)\nsv = Servo(5)\nm = DCMotor(2, 3, 6)\nbz = Buzzer(8)\npot = Potentiometer(\"A1\")\nwhile True:\n    led.toggle()\n    rgb.fade(1, 2, 3, 100, 4)\n    sv.write(pot.read() / 6)\n    m.ramp(0.5, 100)\n    bz.melody(\"siren\")\n    sleep(10)\n",
     "nested": IMPORTS + "a = analog_read(\"A0\")\nwhile True:\n    if a > 1:\n        for i in range(2):\n            inner = i\n            if inner > 0:\n                deep = inner\n                other = 3\n    else:\n        alt = 2\n    mon.write(a)\n",
+    # a script so deeply nested that it is rejected: the verdict may not depend on what was transpiled (and rejected) before
+    "deep_sum": IMPORTS + "def big(v):\n    return " + " + ".join(["v"] * 2000) + "\nmon.write(big(1))\n",
+    "deep_sum_mid": IMPORTS + "def big(v):\n    return " + " + ".join(["v"] * 300) + "\nmon.write(big(1))\n",
+    # literals that compare equal but are written differently: each script keeps its own spelling
+    "zeros_pos": IMPORTS + "m = DCMotor(2, 3, 4)\nbz = Buzzer(8)\nsv = Servo(9, min_angle=0.0, max_angle=90.0)\nm.set_speed(0.0)\nbz.play_tone(440.0, 1.0)\nsleep(1)\nled = Led(5)\nled.set_brightness(1)\n",
+    "zeros_neg": IMPORTS + "m = DCMotor(2, 3, 4)\nbz = Buzzer(8)\nsv = Servo(9, min_angle=-0.0, max_angle=90)\nm.set_speed(-0.0)\nbz.play_tone(440, 1)\nsleep(1.0)\nled = Led(5)\nled.set_brightness(True)\n",
     "shadow_builtins": IMPORTS + "def sum(v):\n    return v\ndef len(v):\n    return 3\ndef divmod(p, q):\n    return p\ndef hash(p, q):\n    return q\ndef ord(v):\n    return v\na = analog_read(\"A0\")\nmon.write(sum(a) + len(a) + divmod(a, 1) + hash(a, 2) + ord(a))\n",
     "range_limits": IMPORTS + "a = analog_read(\"A0\")\nitems = [a, 2]\nn = a\nfor i in range(abs(a - 5)):\n    mon.write(i)\nfor j in range(len(items)):\n    items.append(j)\nfor k in range(min(a, 3)):\n    k += 1\n    mon.write(k)\nfor m in range(n):\n    n = n - 1\nwhile True:\n    for step in range(max(a, 2)):\n        step = step * 2\n        mon.write(step)\n",
     "list_returns": IMPORTS + "def ramp(fine):\n    if fine > 2:\n        return [0.25, 0.5, 0.75]\n    return [1, 2, 3]\ndef names(k):\n    if k > 1:\n        return [1, 2]\n    if k > 0:\n        return [1.5]\n    return [True]\nr = ramp(1)\nmon.write(r[0])\nq = names(2)\nmon.write(q[0])\n",
@@ -235,6 +241,8 @@ def explore_orders(report: Report, tier: str) -> dict:
     from Reduino.transpile.parser import parse
 
     for name, src in CORPUS.items():
+        if name.startswith("deep_"):
+            continue  # the deeply nested scripts take part in the history exploration only
         base, points = run_with(parser_mod, emitter_mod, src, {})
         try:
             real = emit(parse(src))
@@ -342,9 +350,16 @@ def module_state() -> str:
     import Reduino.transpile.emitter as E
     import Reduino.transpile.parser as P
 
-    parts = []
+    import os
+    import sys
+
+    # interpreter-wide settings a transpilation could leave behind count as state too
+    parts = [("sys", "recursionlimit", sys.getrecursionlimit()), ("sys", "path", tuple(sys.path)), ("os", "cwd", os.getcwd()), ("os", "environ", hash(frozenset(os.environ.items())))]
     for mod in (P, E, A, Reduino):
         for name, value in sorted(vars(mod).items()):
+            if hasattr(value, "cache_info") and callable(getattr(value, "cache_info", None)):
+                parts.append((mod.__name__, name, "cache:%d" % value.cache_info().currsize))  # a memo that fills up is state
+                continue
             if name.startswith("__") or isinstance(value, (types.ModuleType, types.FunctionType, type)) or callable(value) and not hasattr(value, "__next__"):
                 continue
             if hasattr(value, "pattern") and hasattr(value, "match"):
@@ -392,7 +407,11 @@ def explore_histories(report: Report, tier: str) -> dict:
         n += 1
         if fresh[a].startswith("<<"):
             continue  # rejected scripts have no Program to emit twice
-        prog = parse(CORPUS[a])
+        try:
+            prog = parse(CORPUS[a])
+        except Exception as exc:  # noqa: BLE001
+            bad("emit-repeat", [a], f"parse() raised {type(exc).__name__}: {exc} for a script a fresh process accepts")
+            continue
         first = emit(prog)
         second = emit(prog)
         third = emit(prog)
@@ -402,8 +421,12 @@ def explore_histories(report: Report, tier: str) -> dict:
             n += 1
             if fresh[b].startswith("<<"):
                 continue
-            pa = parse(CORPUS[a])
-            pb = parse(CORPUS[b])
+            try:
+                pa = parse(CORPUS[a])
+                pb = parse(CORPUS[b])
+            except Exception as exc:  # noqa: BLE001
+                bad("interleave", [a, b], f"parse() raised {type(exc).__name__}: {exc} for scripts a fresh process accepts")
+                continue
             ea, eb = emit(pa), emit(pb)
             if ea != fresh[a] or eb != fresh[b]:
                 bad("interleave", [a, b], "parse A, parse B, emit A, emit B differs from the fresh outputs")
@@ -529,14 +552,18 @@ def main(tier: str, seed: int, only=None) -> int:
     stats = {}
     # the module-level state right after import, before this process has transpiled anything
     pristine = module_state()
-    if not only or "orders" in only:
-        stats["orders"] = explore_orders(report, tier)
-    if not only or "histories" in only:
-        stats["histories"] = explore_histories(report, tier)
-    if not only or "schedules" in only:
-        stats["schedules"] = explore_schedules(report, tier)
-    if not only or "seeds" in only:
-        stats["hashseeds"] = real_seeds(report, tier)
+    for part, fn in (("orders", explore_orders), ("histories", explore_histories), ("schedules", explore_schedules), ("seeds", real_seeds)):
+        if only and part not in only:
+            continue
+        try:
+            stats["hashseeds" if part == "seeds" else part] = fn(report, tier)
+        except Exception as exc:  # noqa: BLE001 - the transpiler itself raised something other than a rejection during this part
+            import traceback
+
+            where = traceback.extract_tb(exc.__traceback__)[-1]
+            key = explore.history_key(ID, "history", [("raised", (part, type(exc).__name__), {})])
+            report.violation(key, f"{part}: the transpiler raised {type(exc).__name__}: {exc} ({where.filename.split('/')[-1]}:{where.lineno}) for a corpus script that a fresh process transpiles",
+                             {"subject": "history", "kind": "raised", "history": [], "part": part})
     if module_state() != pristine:
         key = explore.history_key(ID, "history", [("pristine", ("all",), {})])
         report.violation(key, "history pristine: the module-level state of the transpiler after the run differs from its state right after import (something is remembered between transpilations)",
